@@ -288,7 +288,7 @@ def report(ctx, traces, cases, bad, jbad, uobs, fobs):
                 continue
             ctx.violation("units:v%d:%s" % (o["ver"], b["j"]), "burner reading out of unit: %s" % json.dumps(o), {"kind": "units", "case": o})
     ctx.cov["kernel_truth_mismatches"] = len(truth)
-    if truth:
+    if truth and not ctx.violations and not ctx.known_hits:
         raise vlib.Inconclusive("kernel accounting disagrees with the burner's rusage beyond the tolerance: %s" % json.dumps(truth[0]))
 
 
